@@ -204,12 +204,13 @@ Lemma VInv_set_prop : forall c k v valid g c', VInv c -> valid = true -> nmlid g
   set_prop c k v valid g = BRet c' -> VInv c'.
 Proof.
   intros c k v valid g c' [Hs [Hg Hp]] Hv Hgn H. unfold set_prop in H.
-  assert (Hk : (if existsb (prop_eqb (mkProp k v valid g)) (props c) then c
-                else mkCell (segs c) (groups c) (props c ++ [mkProp k v valid g])) = c' -> VInv c').
+  assert (Hk : (if existsb (prop_eqb (mkProp k v valid g false)) (props c) then c
+                else mkCell (segs c) (groups c) (props c ++ [mkProp k v valid g false])) = c' -> VInv c').
   { intros E. destruct (existsb _ (props c)); subst c'; [split; [exact Hs | split; assumption]|].
     split; [exact Hs|]. split; [exact Hg|]. simpl. intros p Hin. apply in_app_or in Hin.
     destruct Hin as [Hin|[Hin|[]]]; [apply Hp; exact Hin | subst p; simpl; split; assumption]. }
   destruct k.
+  - injection H as E. exact (Hk E).
   - injection H as E. exact (Hk E).
   - injection H as E. exact (Hk E).
   - injection H as E. exact (Hk E).
@@ -227,6 +228,8 @@ Proof.
   - inversion H; subst. apply VInv_reorder; exact HV.
   - eapply VInv_optimise; [apply HI | exact HV | exact H].
   - destruct Hf as [Hv Hg]. exact (VInv_set_prop c k v valid g c' HV Hv Hg H).
+  - inversion H; subst. destruct HV as [Hs [Hg Hp]]. split; [exact Hs|]. split; [exact Hg|]. simpl.
+    intros p Hin. apply in_map_iff in Hin. destruct Hin as [q [Eq Hq]]. subst p. simpl. apply Hp. exact Hq.
 Qed.
 
 Theorem VInv_run : forall ops c c', Inv c -> VInv c -> run_ok true ops c = true -> Forall op_facets ops ->
